@@ -108,6 +108,26 @@ double strtod(const char *s, char **e) {
     return real(s, e);
 }
 
+/* libc routines the library hands pointers to: their accesses are not instrumented, so they are recorded here (ranges) */
+static inline void range_(const void *a, size_t n, int w) { if (a && n) access_((void *)a, n, w); }
+void *memcpy(void *d, const void *s_, size_t n) { range_(s_, n, 0); range_(d, n, 1); unsigned char *dd = d; const unsigned char *ss = s_; for (size_t i = 0; i < n; i++) dd[i] = ss[i]; return d; }
+void *memset(void *d, int c, size_t n) { range_(d, n, 1); volatile unsigned char *dd = d; for (size_t i = 0; i < n; i++) dd[i] = (unsigned char)c; return d; }
+size_t strlen(const char *s_) { size_t n = 0; while (s_[n]) n++; range_(s_, n + 1, 0); return n; }
+int strcmp(const char *a, const char *b) { size_t i = 0; while (a[i] && a[i] == b[i]) i++; range_(a, i + 1, 0); range_(b, i + 1, 0); return (unsigned char)a[i] - (unsigned char)b[i]; }
+char *strdup(const char *s_) { size_t n = strlen(s_); char *p = malloc(n + 1); if (p) { for (size_t i = 0; i <= n; i++) p[i] = s_[i]; } return p; }
+char *strndup(const char *s_, size_t m) { size_t n = 0; while (n < m && s_[n]) n++; range_(s_, n, 0); char *p = malloc(n + 1); if (p) { for (size_t i = 0; i < n; i++) p[i] = s_[i]; p[n] = 0; } return p; }
+#include <stdarg.h>
+int vsnprintf(char *buf, size_t n, const char *fmt, va_list ap) {
+    static int (*real)(char *, size_t, const char *, va_list) = NULL; if (!real) real = dlsym(RTLD_NEXT, "vsnprintf");
+    int r = real(buf, n, fmt, ap);
+    if (buf && n) range_(buf, (size_t)(r < 0 ? 1 : ((size_t)r + 1 < n ? (size_t)r + 1 : n)), 1);
+    return r;
+}
+void qsort(void *base, size_t n, size_t w, int (*cmp)(const void *, const void *)) {
+    static void (*real)(void *, size_t, size_t, int (*)(const void *, const void *)) = NULL; if (!real) real = dlsym(RTLD_NEXT, "qsort");
+    range_(base, n * w, 1); real(base, n, w, cmp);
+}
+
 /* ------------------------------------------------------------------ baton scheduler */
 static pthread_mutex_t mu = PTHREAD_MUTEX_INITIALIZER; static pthread_cond_t cv = PTHREAD_COND_INITIALIZER;
 static int nthreads, running = -1, finished[MAXT], started[MAXT];
